@@ -8,7 +8,7 @@ SCOPE-IFLET-ELSE (C06/C15): the scope analysis visits the else-branch of an `if 
 """
 from ..core import RuleResult
 from ..cfg import cfg_of
-from ..dataflow import operand_root, field_names, call_sites
+from ..dataflow import operand_root, field_names, call_sites, root_local
 from ..facts import callee, strip_refs
 from ..callgraph import body_refs
 
@@ -425,4 +425,137 @@ def run_reentrant_restore(prog, tier, repo, crates=('samlang_compiler', 'samlang
                               f'the field had before' + (f' (line {bad_after} writes something else last)' if bad_after else '') +
                               '; code after a nested construct then runs with the wrong (or no) context')
     res.floor('re-entrant overrides', n_inst, len([c for c in crates if c in ('samlang_compiler', 'samlang_checker')]))
+    return [res]
+
+
+# ---------------------------------------------------------------------------------------------------------------------
+# SAVE-CALL-RESTORE (C05 / C06): the parser keeps the set of type parameters in scope in a field of the parser itself. A
+# production that lets a sub-production extend the set brackets the call: it clones the field, calls, and assigns the
+# clone back. If a saved copy of a field exists and a call that can modify the field is made after it, then every path from
+# that call to the end of the function - or to the next trip of the enclosing loop - has to pass the restoring
+# assignment; a path around it leaks the callee's additions (a method's own type parameters) into whatever is parsed next.
+
+def run_save_call_restore(prog, tier, repo, crate='samlang_parser'):
+    from ..cfg import single_def
+    res = RuleResult('SAVE-CALL-RESTORE', 'a parser field that is saved before a call which can modify it is restored from the saved '
+                     'copy on every path from that call to the function\'s end or the next loop trip (scoping of type parameters)')
+    bodies = {i: b for i, b in prog.bodies.items() if b.crate == crate and '::tests' not in b.name}
+
+    def field_of(b, pl):
+        """(param local, field name) when the place is a field of a by-reference parameter"""
+        r, path = root_local(b, pl.local)
+        full = tuple(path) + tuple(e for e in pl.proj if e[0] == 'f')
+        fs = [e for e in full if e[0] == 'f']
+        if 1 <= r <= b.nargs and b.locals[r].k == 'ref' and fs:
+            return r, fs[0][4], fs[0][1]
+        return None
+    MUT = ('insert', 'remove', 'extend', 'clear', 'push', 'pop', 'retain', 'append', 'drain', 'truncate', 'take')
+    direct = {}    # body id -> set of (adt, field) it writes
+    for i, b in bodies.items():
+        w = set()
+        for bl in b.blocks:
+            if bl.cleanup:
+                continue
+            for st in bl.stmts:
+                if st[0] == 'a' and st[1].proj:
+                    f = field_of(b, st[1])
+                    if f:
+                        w.add((f[2], f[1]))
+            t = bl.term
+            if t[0] == 'call' and t[3] and (callee(t)[1] or '').split('::')[-1] in MUT and t[3][0][0] in ('c', 'm'):
+                r, path = operand_root(b, t[3][0])
+                fs = [e for e in path if e[0] == 'f']
+                if r is not None and 1 <= r <= b.nargs and fs:
+                    w.add((fs[0][1], fs[0][4]))
+        direct[i] = w
+    trans = {}
+
+    def writes(i, seen=None):
+        if i in trans:
+            return trans[i]
+        seen = seen if seen is not None else set()
+        if i in seen or i not in bodies:
+            return set()
+        seen.add(i)
+        w = set(direct[i])
+        for r in body_refs(bodies[i]):
+            w |= writes(r, seen)
+        for c in prog.closures_of.get(i, []):
+            w |= writes(c, seen)
+        return w
+    for i in bodies:
+        trans[i] = writes(i)
+    n = 0
+    for i in sorted(bodies, key=lambda x: bodies[x].name):
+        b = bodies[i]
+        if b.kind == 'closure':
+            continue
+        # saves: local = Clone::clone(&param.F)
+        saves = {}     # local -> (field key, block)
+        for bi, bl in enumerate(b.blocks):
+            t = bl.term
+            if bl.cleanup or t[0] != 'call' or t[4] is None or not t[3] or (callee(t)[1] or '').split('::')[-1] != 'clone':
+                continue
+            if t[3][0][0] not in ('c', 'm'):
+                continue
+            f = field_of(b, t[3][0][1])
+            if f and not t[4].proj:
+                saves[t[4].local] = ((f[2], f[1]), bi)
+        if not saves:
+            continue
+
+        def saved_origin(op, depth=0):
+            if op[0] not in ('c', 'm') or depth > 4:
+                return None
+            r, _ = operand_root(b, op)
+            if r in saves:
+                return saves[r]
+            sd = single_def(b, r) if r is not None else None
+            if sd and sd[1] == 'term' and (callee(sd[2])[1] or '').split('::')[-1] == 'clone' and sd[2][3]:
+                return saved_origin(sd[2][3][0], depth + 1)
+            return None
+        restores = {}   # field key -> [blocks]
+        for bi, bl in enumerate(b.blocks):
+            if bl.cleanup:
+                continue
+            for st in bl.stmts:
+                if st[0] == 'a' and st[1].proj and st[2][0] == 'use':
+                    f = field_of(b, st[1])
+                    so = saved_origin(st[2][1])
+                    if f and so and so[0] == (f[2], f[1]):
+                        restores.setdefault(so[0], []).append(bi)
+        cfg = cfg_of(b)
+        back = cfg.back_edges()
+        for fk in sorted({v[0] for v in saves.values()}):
+            save_blocks = [v[1] for v in saves.values() if v[0] == fk]
+            rs = restores.get(fk, [])
+            if not rs:
+                continue       # a copy that is never written back is not a bracket
+            for bi, bl in enumerate(b.blocks):
+                t = bl.term
+                if bl.cleanup or t[0] != 'call':
+                    continue
+                cid = callee(t)[0]
+                if cid not in bodies or fk not in trans.get(cid, ()):
+                    continue
+                if not cfg.nodes_dominate(save_blocks, bi) or bi in save_blocks:
+                    continue
+                n += 1
+                k = sum(1 for x in res.instances if x.key.startswith(f'bracket:{b.name}:{fk[1]}#')) + 1
+                key = f'bracket:{b.name}:{fk[1]}#{k}'
+                free = cfg.reachable(bi, removed_nodes=[x for x in rs if x != bi])
+                leak = None
+                if any(x in free for x in cfg.exits):
+                    leak = 'the end of the function'
+                else:
+                    for (u, h) in back:
+                        if u in free and h in free and cfg.nodes_dominate([h], bi):
+                            leak = 'the next trip of the enclosing loop'
+                if leak:
+                    res.violation(key, b.loc(t[7]), f'{b.name} saves `{fk[1]}`, calls {bodies[cid].name.split("::")[-1]} (which can '
+                                  f'change it) and reaches {leak} on a path that does not assign the saved copy back: what the callee '
+                                  f'added (the type parameters of a member) stays in scope for the code parsed afterwards')
+                else:
+                    res.ok(key, b.loc(t[7]), f'`{fk[1]}` is restored on every path after the call')
+    res.floor('save / call / restore brackets', n, 2)
     return [res]
